@@ -2,7 +2,7 @@
     first line end met with an empty current line.  First part: getfieldlen() jumps over a field without
     passing such a place. *)
 From Qv Require Import Common.Bytes Gen.GenQrdata Model.Mime Model.QrData Proofs.QrMemLemmas
-  Proofs.QrNeedRecodeProofs Proofs.QrPhaseProofs Proofs.MimeTotalProofs Proofs.QrBoundaryProofs.
+  Proofs.QrNeedRecodeProofs Proofs.QrPhaseProofs Proofs.MimeTotalProofs.
 Require Import Lia.
 
 Lemma hpos_nz : forall l a b, a <> 0 -> b <> 0 -> hpos a l = hpos b l.
